@@ -36,6 +36,10 @@ def binding(slot, choice):
         return const(CONST[slot][1], w)
     if choice == 'sym':
         return ident('init_' + slot, w)
+    if choice == 'xref':
+        # the binding mentions another identifier of the alphabet (which may be bound itself): simultaneous substitution
+        other = {'x8': 'y8', 'x32': 'y32', 'c32': 'y32'}[slot]
+        return {'k': 'op', 'w': w, 'o': '^' if w == 8 else '+', 'u': 0, 'a': [ident(other, w), const(0x55 if w == 8 else 0x100, w)]}
     return {'k': 'op', 'w': w, 'o': '^' if w == 8 else '+', 'u': 0, 'a': [ident('init_' + slot, w), const(0x55 if w == 8 else 0x100, w)]}
 
 
@@ -250,8 +254,13 @@ def fold_trees(rnd, n):
         r = rnd.random()
         if r < 0.5:
             return ident(rnd.choice(['x8', 'y8']), 8)
-        if r < 0.75:
+        if r < 0.7:
             return {'k': 'op', 'w': 8, 'o': '==', 'u': 0, 'a': [ident(rnd.choice(['x8', 'y8']), 8), c(8)]}
+        if r < 0.85:
+            # the operator of the cross-referencing bindings (x8 := y8 ^ 0x55, x32 := y32 + 0x100): the evaluated condition is
+            # re-associated by the simplifier
+            return ({'k': 'op', 'w': 8, 'o': '^', 'u': 0, 'a': [ident('x8', 8), rnd.choice([ident('y8', 8), c(8)])]} if rnd.random() < 0.5 else
+                    {'k': 'op', 'w': 32, 'o': '+', 'u': 0, 'a': [ident('x32', 32), rnd.choice([ident('y32', 32), c(32)])]})
         return ident(rnd.choice(['x32', 'y32']), 32)
 
     def part(w, d):
